@@ -108,3 +108,16 @@ Print Assumptions C19_tile_index_offset_total.
 Theorem C19_tile_index_offset_overflow_refuted_before_fix :
   tidx_add_offset_v 0 66 [(u64_max - 2, 5)]%N = Overflow /\ tidx_add_offset 66 [(u64_max - 2, 5)]%N = Ok [(u64_max, 5%N)].
 Proof. exact tidx_add_offset_overflow_v0. Qed.
+
+(* ---- the whole lookup paths: opening a file and looking up a tile in it ends with a value or an error
+   for every byte string (given a decompressor that returns bytes) - never a panic, never an overflow ---- *)
+From VT Require Import Model.VTFile Proofs.VTFileProofs Model.PMFile Proofs.PMFileProofs.
+Theorem C19_versatiles_lookup_total :
+  forall (unb : list N -> option (list N)), (forall b r, unb b = Some r -> Forall (fun x => (x < 256)%N) r) ->
+  forall file z x y, Forall (fun b => (b < 256)%N) file -> soft (vt_file_lookup unb file z x y).
+Proof. exact vt_file_lookup_soft. Qed.
+Print Assumptions C19_versatiles_lookup_total.
+Theorem C19_pmtiles_file_lookup_total :
+  forall (unzip : list N -> option (list N)) file t, soft (pm_file_lookup unzip pm_arith_variant file t).
+Proof. exact pm_file_lookup_soft. Qed.
+Print Assumptions C19_pmtiles_file_lookup_total.
